@@ -31,7 +31,8 @@ package imagefam
 // known finding, such a case is marked unpack_only: the views are not compared, the squashed
 // unpacking is (a different code path, which handles absolute names). Two shapes in which
 // the unchanged squashed unpack deviates from the overlay are known findings with narrow
-// predicates (c04.unpack_mixed_name_forms, c04.unpack_abs_name_relative_requirer).
+// predicates (c04.unpack_mixed_name_forms, c04.unpack_abs_name_relative_requirer,
+// c04.unpack_mixed_name_forms_required_link_target).
 //
 // Tolerances (each measured as a class, none silently dropped):
 //   - Open of an absent path may return a handle whose Stat and Read fail with not-exist
@@ -43,6 +44,18 @@ package imagefam
 //     (equal to the reference) or absent; in every view a directory without any retained
 //     descendant may be absent (pathtree.Remove prunes emptied parents; its unit test
 //     demands that).
+//   - While c04.implicit_parent_hides_dir_mode is a known finding, three generated cases in
+//     four (tolerate_dir_mode) keep its input shapes - a directory with an explicit entry in a
+//     lower layer that a later layer only implies (files beneath it, no entry of its own: the
+//     everyday shape of a layer that does not repeat its parent directories), and a directory
+//     entry that follows one of its children in the tar. The finding explains the MODE of such
+//     a directory only: for exactly those directories, from the view in which the shape arises
+//     up to the view in which a later entry for the path, met first in its tar, sets it again
+//     (c04DirModeExplained), Stat / Stat of the handle / Info() of the listing entry may report
+//     the expected mode or exactly d---------. Existence, kind, children, contents, sizes and
+//     the modes of everything beneath are compared as in any other case (classes
+//     dir_mode_tolerated_*). The fourth case is stripped of the shapes as before; witness
+//     replays never carry the flag.
 
 import (
 	"errors"
@@ -192,6 +205,10 @@ func (cs c04Case) maxFileBytes() int64 {
 
 const c04Depth = image.DefaultMaxSymlinkDepth
 
+// c04DirModeDisagree is a label that must never occur (propC04 fails with a harness error):
+// the two formulations of clsImplicitDirMode disagree on a case.
+const c04DirModeDisagree = "harness_dir_mode_predicates_disagree"
+
 // ---------------------------------------------------------------------------------------
 // Finding classes: narrow predicates over the case (see KNOWN_FINDINGS.txt).
 // ---------------------------------------------------------------------------------------
@@ -241,7 +258,59 @@ const (
 	// the cleaned name ("/p") and "/"+cleaned name, never "p" (the entry is skipped; an older
 	// relatively named entry for the same path is then unpacked in its place).
 	clsUnpackAbsRelRequirer = "c04.unpack_abs_name_relative_requirer"
+	// Squashed unpack with a path-set requirer, same root as clsUnpackNameForms (the flattening
+	// keeps "/p" of a lower layer next to the newer "p", or the reverse, as two entries): a
+	// regular file or symlink P of the final view is wanted only as the target of a required
+	// link, and a lower layer carries a file or link for P in the other name form. The unpacker
+	// learns that P is wanted when it meets the link in the squashed stream; when the newest
+	// entry for P came before the link and the older copy comes after it, the older copy is
+	// written in that pass and the newest one is skipped later as "already unpacked".
+	clsUnpackStaleOtherForm = "c04.unpack_mixed_name_forms_required_link_target"
 )
+
+// c04StaleOtherFormTargets lists the regular files and symlinks of the final view (absolute
+// spelling) that fall into clsUnpackStaleOtherForm: reached from a required link but not
+// required themselves, with an older file / link entry for the same path written in the other
+// name form than the newest one.
+func c04StaleOtherFormTargets(cs c04Case) []string {
+	if !cs.UseRequirer || !cs.hasAbsName() {
+		return nil
+	}
+	cs, _ = cs.effective()
+	n := len(cs.Image.Layers)
+	if n == 0 {
+		return nil
+	}
+	set := map[string]bool{}
+	for _, r := range cs.Require {
+		set[r] = true
+	}
+	final := overlay.Views(cs.Image.Layers)[n-1]
+	reach := retained(final, set, 1<<20)
+	var out []string
+	for _, p := range final.Paths() {
+		nd := final[p]
+		if nd.Kind == overlay.Dir || !reach[p] || requiredBy(set, p) {
+			continue
+		}
+		abs, ok := c04WriterAbs(cs.Image.Layers, nd)
+		if !ok {
+			continue
+		}
+		stale := false
+		for _, l := range cs.Image.Layers[:nd.Layer] {
+			for _, e := range l.Entries {
+				if op := overlay.Interpret(e); op.Kind == overlay.OpPut && op.Path == p && e.Kind != tarimg.KindDir && c04AbsName(e) != abs {
+					stale = true
+				}
+			}
+		}
+		if stale {
+			out = append(out, p)
+		}
+	}
+	return out
+}
 
 // c04AbsRelRequired lists the regular files and symlinks of the final view (absolute
 // spelling) that fall into clsUnpackAbsRelRequirer.
@@ -316,6 +385,8 @@ func c04Features(cs c04Case) (finding map[string]bool, labels map[string]bool, a
 	cs, _ = cs.effective()
 	views := overlay.Views(cs.Image.Layers)
 	c04ModeLabels(cs, views, labels)
+	// dirModeSites: some layer has a shape of clsImplicitDirMode (set at four sites below)
+	dirModeSites := false
 	// removedAt[P] = true once P (a directory with children) was removed by a later layer.
 	removedDirs := map[string]int{}
 	var fileToImplicit []string
@@ -506,7 +577,7 @@ func c04Features(cs c04Case) (finding map[string]bool, labels map[string]bool, a
 					if putOrder[a] > putOrder[p] {
 						labels["dir_entry_after_child"] = true
 						if dirModeBits(l, a) != 0 {
-							finding[clsImplicitDirMode] = true
+							dirModeSites = true
 						}
 					}
 					continue
@@ -521,7 +592,7 @@ func c04Features(cs c04Case) (finding map[string]bool, labels map[string]bool, a
 				}
 				if n, ok := views[k][a]; ok && n.Kind == overlay.Dir && !n.Implicit && n.ModeBits() != 0 {
 					// explicit below (not removed by this layer), implicit here
-					finding[clsImplicitDirMode] = true
+					dirModeSites = true
 				}
 			}
 		}
@@ -542,12 +613,12 @@ func c04Features(cs c04Case) (finding map[string]bool, labels map[string]bool, a
 				if ak, explicit := puts[a]; explicit {
 					if ak == tarimg.KindDir && putOrder[a] > m.idx && dirModeBits(l, a) != 0 {
 						labels["dir_entry_after_child"] = true
-						finding[clsImplicitDirMode] = true
+						dirModeSites = true
 					}
 					continue
 				}
 				if n, ok := views[k][a]; ok && n.Kind == overlay.Dir && !n.Implicit && n.ModeBits() != 0 {
-					finding[clsImplicitDirMode] = true
+					dirModeSites = true
 				}
 			}
 		}
@@ -562,6 +633,27 @@ func c04Features(cs c04Case) (finding map[string]bool, labels map[string]bool, a
 			if kind != tarimg.KindDir {
 				earlier = append(earlier, oldEntry{p, putAbs[p]})
 			}
+		}
+	}
+	// clsImplicitDirMode. A case that carries TolerateDirMode keeps the shapes: the class is not
+	// reported as a finding of the case; the comparison accepts, for exactly the directories and
+	// views of c04DirModeExplained, the synthesised mode next to the expected one. The sites
+	// above and that function are two formulations of the same predicate and have to agree.
+	_, dmShapes := c04DirModeExplained(cs.Image.Layers, views)
+	if dirModeSites != (dmShapes[dmExplicitBelow] || dmShapes[dmEntryAfter]) {
+		labels[c04DirModeDisagree] = true
+	}
+	switch {
+	case !dirModeSites:
+	case !cs.TolerateDirMode:
+		finding[clsImplicitDirMode] = true
+	case cs.UnpackOnly:
+		// the views of such a case are not compared at all
+		labels["dir_mode_shape_in_unpack_only_case"] = true
+	default:
+		labels["dir_mode_tolerated_case"] = true
+		for _, k := range sortedKeys(dmShapes) {
+			labels["dir_mode_tolerated_"+k] = true
 		}
 	}
 	// emptied directories: a directory of the final view without children whose subtree held
@@ -624,6 +716,9 @@ func c04Features(cs c04Case) (finding map[string]bool, labels map[string]bool, a
 		}
 		if len(c04AbsRelRequired(cs)) > 0 {
 			finding[clsUnpackAbsRelRequirer] = true
+		}
+		if len(c04StaleOtherFormTargets(cs)) > 0 {
+			finding[clsUnpackStaleOtherForm] = true
 		}
 		if cs.UseRequirer {
 			labels["abs_names_with_requirer"] = true
@@ -1414,6 +1509,9 @@ func propC04(cs c04Case) (ev.Outcome, error) {
 			return out, fmt.Errorf("harness: layer %d of the case is not tree-consistent", i)
 		}
 	}
+	if labels[c04DirModeDisagree] {
+		return out, errors.New("harness: the two predicates of " + clsImplicitDirMode + " disagree on this case")
+	}
 	var requirer require.FileRequirer = &require.FileRequirerAll{}
 	reqSet := map[string]bool{}
 	if cs.UseRequirer {
@@ -1455,6 +1553,12 @@ func propC04(cs c04Case) (ev.Outcome, error) {
 	}
 	queries := c04Queries(cs, want)
 	var st c04Stats
+	// directories whose mode the known finding explains, per view (TolerateDirMode only)
+	var dirTol []map[string]string
+	if cs.TolerateDirMode {
+		dirTol, _ = c04DirModeExplained(eff.Image.Layers, overlay.Views(eff.Image.Layers))
+	}
+	plan := cs.Image.ChainPlan()
 	for i := range want {
 		vp := viewPair{must: want[i], may: want[i], exact: true}
 		if cs.UseRequirer {
@@ -1466,6 +1570,9 @@ func propC04(cs c04Case) (ev.Outcome, error) {
 				vp.must = restrict(wantMust[i], reqSet, i == len(want)-1).must
 				vp.may = restrict(want[i], reqSet, i == len(want)-1).may
 			}
+		}
+		if dirTol != nil && plan[i].Upto > 0 && len(dirTol[plan[i].Upto-1]) > 0 {
+			vp.tol = &c04DirTol{paths: dirTol[plan[i].Upto-1], st: &st}
 		}
 		if ld.Chains[i].Index() != i {
 			return out, fmt.Errorf("chain layer %d reports Index() = %d", i, ld.Chains[i].Index())
@@ -1479,6 +1586,12 @@ func propC04(cs c04Case) (ev.Outcome, error) {
 	}
 	if st.emptyReadDir > 0 {
 		out.Classes = append(out.Classes, "tolerated:readdir_of_absent_or_file_is_empty_not_error")
+	}
+	if st.dirModeSynthesised > 0 {
+		out.Classes = append(out.Classes, "dir_mode_tolerated:synthesised_mode_observed")
+	}
+	if st.dirModeExpected > 0 {
+		out.Classes = append(out.Classes, "dir_mode_tolerated:expected_mode_observed")
 	}
 	if cs.SkipUnpack {
 		return out, nil
@@ -1825,6 +1938,14 @@ func genC04(col *ev.Collector) func(t *rapid.T) c04Case {
 			styles, styleDev = c04AbsStyles, 3
 		}
 		nLayers := rapid.IntRange(1, 5).Draw(t, "layers")
+		// While c04.implicit_parent_hides_dir_mode is known, three cases in four KEEP its input
+		// shapes (explicit directory entry below / only implied here - what every real image that
+		// does not repeat its parent directories looks like; directory entry after a child) and
+		// have the mode of exactly those directories compared tolerantly; the fourth is stripped
+		// of the shapes as before (strict domain).
+		if col.IsKnown(clsImplicitDirMode) && rapid.IntRange(0, 3).Draw(t, "tolerate_dir_mode") != 0 {
+			cs.TolerateDirMode = true
+		}
 		known := func(cs c04Case) string {
 			f, _, _ := c04Features(cs)
 			for _, k := range sortedKeys(f) {
@@ -2101,6 +2222,14 @@ func genC04(col *ev.Collector) func(t *rapid.T) c04Case {
 				cs.Require = append(cs.Require, add...)
 			}
 		}
+		if cs.UseRequirer && col.IsKnown(clsUnpackStaleOtherForm) {
+			// suppress the class by requiring the affected files and links themselves: the newest
+			// entry, which comes first in the squashed stream, is then written in the first pass
+			if add := c04StaleOtherFormTargets(cs); len(add) > 0 {
+				col.Excluded(clsUnpackStaleOtherForm)
+				cs.Require = append(cs.Require, add...)
+			}
+		}
 		if cs.UseRequirer && col.IsKnown(clsRequirerUnlinks) {
 			// suppress the class by requiring the affected files as well
 			for i := 0; i < 50; i++ {
@@ -2127,6 +2256,13 @@ func genC04(col *ev.Collector) func(t *rapid.T) c04Case {
 		}
 		cs.UnpackOnly = unpackOnly && cs.hasAbsName()
 		cs.DirForm = rapid.SampledFrom(c04DirForms).Draw(t, "dir_form")
+		if cs.TolerateDirMode {
+			// the flag stays only on a case that has something to tolerate
+			eff, _ := cs.effective()
+			if _, shapes := c04DirModeExplained(eff.Image.Layers, overlay.Views(eff.Image.Layers)); !shapes[dmExplicitBelow] && !shapes[dmEntryAfter] {
+				cs.TolerateDirMode = false
+			}
+		}
 		return cs
 	}
 }
@@ -2143,7 +2279,11 @@ func TestC04_overlay(t *testing.T) {
 // Exhaustive sweep (thorough tier): every tree-consistent 2-layer image over the 6-path
 // universe a, a/b, a/b/c, a/d, e, e/f. Layer 0: each path absent / file / directory; layer 1:
 // each path absent / file / directory / whiteout, internal paths also directory + opaque
-// marker. Images that fall into a known-finding class are counted and skipped.
+// marker. Images that fall into a known-finding class are counted and skipped, with one
+// exception: an image whose ONLY known class is c04.implicit_parent_hides_dir_mode (layer 0
+// carries a directory entry, layer 1 only implies that directory) is decided like a generated
+// case with TolerateDirMode: the mode of exactly those directories may be the synthesised one,
+// everything else is compared strictly (coverage.sweep_images_checked_with_dir_mode_tolerated).
 // ---------------------------------------------------------------------------------------
 
 var c04SweepPaths = []string{"a", "a/b", "a/b/c", "a/d", "e", "e/f"}
@@ -2228,6 +2368,10 @@ func TestC04_sweep(t *testing.T) {
 	col.SetExtra("sweep_universe", fmt.Sprintf("%d consistent base layers x %d consistent second layers over %v", len(l0s), len(l1s), c04SweepPaths))
 	stride := ev.IntEnv("VERIF_C04_SWEEP_STRIDE", 1) // >1 thins the sweep (debugging only)
 	var idx, done, skipped int64
+	// images whose only known class is c04.implicit_parent_hides_dir_mode are decided with the
+	// tolerance of TolerateDirMode (every tolerantStride-th of them; 0 = none, all skipped)
+	tolerantStride := ev.IntEnv("VERIF_C04_SWEEP_TOLERANT_STRIDE", 1)
+	var tolerable, tolerated int64
 	for _, a := range l0s {
 		for _, b := range l1s {
 			idx++
@@ -2235,12 +2379,29 @@ func TestC04_sweep(t *testing.T) {
 				continue
 			}
 			cs := c04Case{Leg: "sweep", Image: tarimg.Image{Layers: []tarimg.Layer{a, b}}, SkipUnpack: true}
-			f, _, _ := c04Features(cs)
-			known := ""
-			for _, k := range sortedKeys(f) {
-				if col.IsKnown(k) {
-					known = k
-					break
+			firstKnown := func(cs c04Case) string {
+				f, _, _ := c04Features(cs)
+				for _, k := range sortedKeys(f) {
+					if col.IsKnown(k) {
+						return k
+					}
+				}
+				return ""
+			}
+			known := firstKnown(cs)
+			if known == clsImplicitDirMode && tolerantStride > 0 {
+				// a lower-layer directory entry that layer 1 only implies (the entries of a sweep
+				// layer are in path order, parents first): the finding explains the mode of that
+				// directory and nothing else, so when no other known class applies the image is
+				// decided with the mode of exactly those directories tolerated
+				tc := cs
+				tc.TolerateDirMode = true
+				if firstKnown(tc) == "" {
+					tolerable++
+					if tolerable%int64(tolerantStride) == 0 {
+						cs, known = tc, ""
+						tolerated++
+					}
 				}
 			}
 			if known != "" {
@@ -2258,6 +2419,7 @@ func TestC04_sweep(t *testing.T) {
 	}
 	col.AddExtra("sweep_images_checked", done)
 	col.AddExtra("sweep_images_in_known_classes", skipped)
+	col.AddExtra("sweep_images_checked_with_dir_mode_tolerated", tolerated)
 	if stride == 1 {
 		col.AddExtra("sweep_shards_completed", 1)
 	}
